@@ -98,7 +98,7 @@ class Gen:
     def __init__(self, tape, *, syntax: Syntax = DEFAULT_SYNTAX, is_async: bool = False,
                  probe: bool = False, allow_module_state: bool = False, loopcontrols: bool = False,
                  max_depth: int = 3, size: int = 6, compile_bias: bool = False,
-                 stream: str = "w") -> None:
+                 env_globals: bool = False, stream: str = "w") -> None:
         self.tape = tape
         self.sx = syntax
         self.is_async = is_async
@@ -108,6 +108,7 @@ class Gen:
         self.max_depth = max_depth
         self.size = size
         self.compile_bias = compile_bias
+        self.env_globals = env_globals  # environment globals gn (int) and gf (callable; awaitable in async mode)
         self.stream = stream
         self.prog = Program()
         self.uid = 0
@@ -157,6 +158,9 @@ class Gen:
     # -- expressions ---------------------------------------------------------
     # closed scopes: only local names and literals
     def c_int(self, sc: Scope, depth: int) -> str:
+        if self.env_globals and self.chance(1, 4):
+            self.prog.feat("env_global_use")
+            return "gn" if self.chance(1, 3) else f"gf({self.c_int(sc, depth + 1) if depth < 2 else 1})"
         k = self.d(6 if depth < 2 else 2)
         if k == 0:
             return self.pick(sc.ints) if sc.ints else str(self.d(5))
@@ -236,7 +240,7 @@ class Gen:
         if k == 2:
             return self.pick(STR_VARS)
         if k == 3:
-            return f"{self.e_str(sc, depth + 1)}|{self.pick(['upper', 'lower', 'title', 'trim', 'capitalize', 'e', 'string', 'reverse', 'length', 'wordcount', 'striptags', 'forceescape', 'urlencode'])}"
+            return f"{self.e_str(sc, depth + 1)}|{self.pick(['upper', 'lower', 'title', 'trim', 'capitalize', 'e', 'string', 'length', 'wordcount', 'striptags', 'forceescape', 'urlencode'])}"
         if k == 4:
             return f"({self.e_str(sc, depth + 1)} ~ {self.pick([self.e_str, self.e_int])(sc, depth + 1)})"
         if k == 5:
@@ -823,7 +827,16 @@ def make_tree(rng) -> list:
 
 def make_data(tape, stream: str = "d") -> dict:
     """Plain (sync) data.  All values are re-iterable; callables are pure."""
-    rng = tape.sub_rng(stream)
+    return make_data_rng(tape.sub_rng(stream))
+
+
+def make_data_seed(seed: int) -> dict:
+    import random
+
+    return make_data_rng(random.Random(seed))
+
+
+def make_data_rng(rng) -> dict:
     strs = ["a", "b", "<x>", "a&b", "é", "Hello World", "", "  pad "]
     n = 1 + rng.randrange(4)
     return {
